@@ -4,7 +4,7 @@ import itertools
 from symnp import core
 from symnp.core import band, bor, bnot, iff, implies, sabs, ssqrt
 from symnp.hapi import PreconditionFailed
-from .common import x_patterns, POOL, slice_points, LM_CYCLE, LM_CYCLE13
+from .common import x_patterns, POOL, slice_points, LM_CYCLE, LM_CYCLE13, get_curve, random_curves
 
 PROPERTY = 'C09'
 FUNCTIONS = ['curvature.knee', 'dfdt.knee', 'dfdt.get_knee', 'dfdt.get_knee_gradient', 'menger.knee', 'menger.menger_curvature', 'lmethod.knee', 'lmethod.get_knee',
@@ -43,7 +43,7 @@ def cases(tier, seed):
     for n in range(5, (14 if q else 25)):
         for it in ('none', 'original', 'adjusted'):
             for limit in (3, 5, 10):
-                out.append(dict(fn='refine', n=n, it=it, limit=limit, no_validate=True))
+                out.append(dict(layer='L1', fn='refine', n=n, it=it, limit=limit, no_validate=True))
     return out
 
 
@@ -88,7 +88,7 @@ def run(h, case):
         return int(k)
     if fn == 'refine_slice':
         lm = L.lmethod
-        X, Y = slice_points(h, LM_CYCLE13 if case.get('curve13') else LM_CYCLE, case['pos'])
+        X, Y = slice_points(h, get_curve(case['curve']) if case.get('curve') is not None else (LM_CYCLE13 if case.get('curve13') else LM_CYCLE), case['pos'])
         pts = h.argument(h.array([[a, b] for a, b in zip(X, Y)]))
         calls = [0]
         if h.sym:
@@ -194,6 +194,17 @@ def run(h, case):
             h.prove(k2 == k, 'knee(it=none) == get_knee')
         return k
     raise KeyError(fn)
+
+
+def realise(case, rnd):
+    """concretiser for abstract refinement cycles: lmethod.knee with the same option on small random integer curves (monotone ones included)"""
+    if case.get('fn') != 'refine':
+        return
+    n = max(case['n'], 12)
+    for curve in random_curves(n, rnd, 150):
+        ys = sorted([p[1] * 7 + rnd.randint(0, 6) for p in curve], reverse=True)
+        c = [[i, y] for i, y in enumerate(ys)]
+        yield dict(fn='refine_slice', curve=c, pos=[], it=case['it'], limit=case['limit'], replay_timeout_s=10, layer='L0', realised_from=dict(n=case['n'])), {}
 
 
 LEVEL_TEXT = ('Bounded symbolic model checking of the real curvature / DFDT / Menger / L-method detectors with all heights symbolic: on every path z3 proves that the returned index '
